@@ -171,3 +171,251 @@ package block
 //@   loop 2 invariant [track] currentDAIncluded == m.daIncludedHeight
 //@   loop 2 invariant [gate] inc ==> isda && isda.res0 && isda.res1 == nil && isda.arg2 == m.daIncludedHeight && rhb && rhb.arg2 == m.daIncludedHeight
 //@   loop 2 invariant [one-step] inc.count <= 1
+
+// ---- C01: one production step ----------------------------------------------------------
+
+//@ pred U64Inc(x) := ite(x + 1 < 18446744073709551616, x + 1, 0)
+//@ pred ValidAgainst(ls, header, data) := len(header.ProposerAddress) > 0 && len(header.Signature) > 0
+//@                       && val(header.ProposerAddress) == val(header.Signer.Address) && SigOK(header) && header.Signer.PubKey != nil
+//@                       && DataMatchesHeader(header, data)
+//@                       && header.BaseHeader.ChainID == ls.ChainID
+//@                       && header.BaseHeader.Height == U64Inc(ls.LastBlockHeight)
+//@                       && (header.BaseHeader.Height > 1 ==> ls.LastBlockTime <= TimeOfU64(header.BaseHeader.Time))
+//@                       && val(header.AppHash) == val(ls.AppHash)
+
+//@ func (m *Manager) execValidate(lastState, header, data) (err)
+//@   property C01 C02 C03
+//@   requires [non-nil] header != nil && data != nil
+//@   ensures [valid-only-if] err == nil ==> ValidAgainst(lastState, header, data)
+
+//@ func (m *Manager) Validate(ctx, header, data) (err)
+//@   property C01 C02 C03
+//@   requires [non-nil] header != nil && data != nil
+//@   ensures [valid-only-if] err == nil ==> ValidAgainst(m.lastState, header, data)
+
+//@ func (m *Manager) updateState(ctx, s) (err)
+//@   property C01 C02 C04 C05
+//@   requires [metrics] m.metrics != nil
+//@   modifies durable m.store.stateAt, durable m.store.hasState, m.lastState
+//@   ensures [updated] err == nil ==> StateOf(m.lastState) == StateOf(s) && m.store.hasState && m.store.stateAt == StateOf(s)
+//@   ensures [fields] err == nil ==> m.lastState.LastBlockHeight == s.LastBlockHeight && m.lastState.LastBlockTime == s.LastBlockTime && m.lastState.ChainID == s.ChainID
+//@                       && val(m.lastState.AppHash) == val(s.AppHash) && m.lastState.InitialHeight == s.InitialHeight && m.lastState.DAHeight == s.DAHeight
+//@   ensures [fail-no-effect] err != nil ==> m.store.faulty && StateOf(m.lastState) == old(StateOf(m.lastState)) && m.store.stateAt == old(m.store.stateAt) && m.store.hasState == old(m.store.hasState)
+
+//@ func (m *Manager) getHeaderSignature(header) (sig, err)
+//@   property C01 C03
+//@   ensures [signed] err == nil ==> Signed(SignerKey(m.signer.val), Payload(HdrOf(header)), val(sig)) && len(sig) > 0
+//@ func Manager.signaturePayloadProvider(h) (bz, err)
+//@   ensures [payload] err == nil ==> val(bz) == Payload(HdrOf(h))
+
+//@ pred U64OfTime(t) := ite(t >= 0, t, t + 18446744073709551616)
+
+//@ func (m *Manager) execCreateBlock(_, height, lastSignature, lastHeaderHash, _, batchData) (header, data, err)
+//@   property C01 C03 C11
+//@   requires [args] lastSignature != nil && batchData != nil
+//@   fresh header, data
+//@   ensures [non-nil] err == nil ==> header != nil && data != nil && data.Metadata == nil
+//@   ensures [height] err == nil ==> header.BaseHeader.Height == height
+//@   ensures [time] err == nil ==> header.BaseHeader.Time == U64OfTime(batchData.Time)
+//@   ensures [chain-id] err == nil ==> header.BaseHeader.ChainID == m.lastState.ChainID
+//@   ensures [app-hash] err == nil ==> val(header.AppHash) == val(m.lastState.AppHash)
+//@   ensures [link] err == nil ==> val(header.LastHeaderHash) == val(lastHeaderHash)
+//@   ensures [proposer] err == nil ==> val(header.ProposerAddress) == val(m.genesis.ProposerAddress) && val(header.Signer.Address) == val(m.genesis.ProposerAddress)
+//@   ensures [signer-key] err == nil && header.Signer.PubKey != nil ==> pkraw(header.Signer.PubKey.val) == SignerKey(m.signer.val)
+//@   ensures [proposer-is-signer] err == nil ==> val(m.genesis.ProposerAddress) == AddrOf(SignerKey(m.signer.val))
+//@   ensures [data-hash] err == nil && len(data.Txs) > 0 ==> val(header.DataHash) == CommitTxs(TxsId(data.Txs))
+//@   ensures [data-hash-empty] err == nil && len(data.Txs) == 0 ==> val(header.DataHash) == val(dataHashForEmptyTxs)
+//@   ensures [txs] err == nil && batchData.Batch != nil ==> sameSeq(data.Txs, batchData.Batch.Transactions)
+//@   ensures [txs-nil-batch] err == nil && batchData.Batch == nil ==> len(data.Txs) == 0
+//@   ensures [prev-signature] err == nil ==> val(header.Signature) == val(*lastSignature)
+//@   ensures [no-provider] err == nil ==> header.signatureProvider == nil
+//@   loop 1 invariant [copied] forall k :: 0 <= k && k <= rangeindex && k < len(batchData.Batch.Transactions) ==> val(blockData.Txs[k]) == val(batchData.Batch.Transactions[k])
+//@   loop 1 invariant [len] len(blockData.Txs) == len(batchData.Batch.Transactions) && rangeindex >= -1 && batchData.Batch != nil && blockData != nil && header != nil
+
+//@ func (m *Manager) execApplyBlock(ctx, lastState, header, data) (s, err)
+//@   property C01 C02
+//@   requires [args] data != nil
+//@   ensures [next] err == nil ==> s.LastBlockHeight == header.BaseHeader.Height && s.LastBlockTime == TimeOfU64(header.BaseHeader.Time)
+//@                       && s.ChainID == lastState.ChainID && s.InitialHeight == lastState.InitialHeight && s.DAHeight == lastState.DAHeight
+//@                       && s.Version.Block == lastState.Version.Block && s.Version.App == lastState.Version.App
+//@   ensures [root] err == nil ==> val(s.AppHash) == Exec(val(lastState.AppHash), TxsId(data.Txs))
+//@   loop 1 invariant [copied] forall k :: 0 <= k && k <= rangeindex && k < len(data.Txs) ==> rawTxs[k] == data.Txs[k]
+//@   loop 1 invariant [len] len(rawTxs) == len(data.Txs) && rangeindex >= -1
+//@   loop 1 after [same] sameSeq(rawTxs, data.Txs)
+
+//@ func (m *Manager) applyBlock(ctx, header, data) (s, err)
+//@   property C01 C02
+//@   requires [args] data != nil
+//@   ensures [next] err == nil ==> s.LastBlockHeight == header.BaseHeader.Height && s.LastBlockTime == TimeOfU64(header.BaseHeader.Time)
+//@                       && s.ChainID == m.lastState.ChainID && s.InitialHeight == m.lastState.InitialHeight && s.DAHeight == m.lastState.DAHeight
+//@                       && s.Version.Block == m.lastState.Version.Block && s.Version.App == m.lastState.Version.App
+//@   ensures [root] err == nil ==> val(s.AppHash) == Exec(val(m.lastState.AppHash), TxsId(data.Txs))
+
+//@ func (m *Manager) createBlock(ctx, height, lastSignature, lastHeaderHash, batchData) (header, data, err)
+//@   property C01
+//@   requires [args] lastSignature != nil && batchData != nil
+//@   fresh header, data
+//@   ensures [non-nil] err == nil ==> header != nil && data != nil && data.Metadata == nil
+//@   ensures [fields] err == nil ==> header.BaseHeader.Height == height && header.BaseHeader.Time == U64OfTime(batchData.Time)
+//@                       && header.BaseHeader.ChainID == m.lastState.ChainID && val(header.AppHash) == val(m.lastState.AppHash)
+//@                       && val(header.LastHeaderHash) == val(lastHeaderHash)
+//@                       && val(header.ProposerAddress) == val(m.genesis.ProposerAddress) && val(header.Signer.Address) == val(m.genesis.ProposerAddress)
+//@                       && val(m.genesis.ProposerAddress) == AddrOf(SignerKey(m.signer.val)) && header.signatureProvider == nil
+//@   ensures [signer-key] err == nil && header.Signer.PubKey != nil ==> pkraw(header.Signer.PubKey.val) == SignerKey(m.signer.val)
+//@   ensures [data-hash] err == nil && len(data.Txs) > 0 ==> val(header.DataHash) == CommitTxs(TxsId(data.Txs))
+//@   ensures [data-hash-empty] err == nil && len(data.Txs) == 0 ==> val(header.DataHash) == val(dataHashForEmptyTxs)
+//@   ensures [txs] err == nil && batchData.Batch != nil ==> sameSeq(data.Txs, batchData.Batch.Transactions)
+//@   ensures [txs-nil-batch] err == nil && batchData.Batch == nil ==> len(data.Txs) == 0
+
+//@ func convertBatchDataToBytes(batchData) (r)
+//@   property C12
+//@   ensures [any] true
+
+//@ func (m *Manager) retrieveBatch(ctx) (bd, err)
+//@   property C01 C11
+//@   observe gnb := call GetNextBatch
+//@   modifies m.lastBatchData, durable m.store.meta["l"], durable m.store.metaHas["l"]
+//@   ensures [batch] err == nil ==> bd != nil && bd.Batch != nil && len(bd.Batch.Transactions) > 0
+//@   ensures [empty] err != nil && bd != nil ==> isErr(err, ErrNoBatch) && bd.Batch != nil && len(bd.Batch.Transactions) == 0
+//@   ensures [from-sequencer] bd != nil ==> gnb && gnb.res0 != nil && bd.Batch == gnb.res0.Batch && bd.Time == gnb.res0.Timestamp
+//@   ensures [frame] m.store.height == old(m.store.height) && StateOf(m.lastState) == old(StateOf(m.lastState))
+
+// ChainInv: memory, persisted state, recorded height and stored blocks agree; a block already
+// stored at the next height (saved early by a previous, interrupted step or by start-up) is
+// one that the step can finish: PendingOK.
+//@ pred PendingOK(ls, st, h) := st.hdrAt[h].height == h && st.hdrAt[h].chainID == ls.ChainID
+//@                       && (h > 1 ==> ls.LastBlockTime <= TimeOfU64(st.hdrAt[h].time))
+//@                       && st.hdrAt[h].appHash == val(ls.AppHash)
+//@ pred Linked(m, st, h) := h > m.genesis.InitialHeight ==> st.hdrAt[h].lastHeaderHash == HashHdr(st.hdrAt[h - 1])
+//@ pred InvState(m) := m.lastState.LastBlockHeight == m.store.height && m.store.hasState && m.store.stateAt == StateOf(m.lastState)
+//@ pred InvTip(m) := m.store.height >= m.genesis.InitialHeight ==> m.store.has[m.store.height] && m.store.hdrAt[m.store.height].height == m.store.height
+//@                              && TimeOfU64(m.store.hdrAt[m.store.height].time) == m.lastState.LastBlockTime
+//@ pred InvPending(m) := m.store.has[m.store.height + 1] ==> PendingOK(m.lastState, m.store, m.store.height + 1) && Linked(m, m.store, m.store.height + 1)
+//@ pred InvNoFuture(m) := forall k :: k > m.store.height + 1 ==> !m.store.has[k]
+// start-up saves the genesis header at InitialHeight and sets the height to InitialHeight-1
+//@ pred InvGenesis(m) := m.genesis.InitialHeight >= 1 && m.store.height + 1 >= m.genesis.InitialHeight && (m.store.height + 1 == m.genesis.InitialHeight ==> m.store.has[m.store.height + 1])
+//@ pred ChainInv(m) := InvState(m) && m.store.height < 18446744073709551615 && InvTip(m) && InvPending(m) && InvNoFuture(m) && InvGenesis(m)
+//@ pred NumPending(pb) := ite(pb.lastHeight <= pb.store.height, pb.store.height - pb.lastHeight, pb.store.height - pb.lastHeight + 18446744073709551616)
+//@ pred Refuse(m) := m.config.Node.MaxPendingHeadersAndData != 0 && (NumPending(m.pendingHeaders.base) >= m.config.Node.MaxPendingHeadersAndData
+//@                       || NumPending(m.pendingData.base) >= m.config.Node.MaxPendingHeadersAndData)
+
+//@ func (m *Manager) publishBlockInternal(ctx) (err)
+//@   property C01
+//@   property C04:kind:crash,kind:frame,height,state,inv-state,inv-tip,inv-genesis,inv-no-future
+//@   property C08:refuse,no-refuse
+//@   requires [wiring] m.metrics != nil && m.headerCache != nil && m.pendingHeaders != nil && m.pendingHeaders.base != nil && m.pendingData != nil && m.pendingData.base != nil
+//@                       && m.store != nil && m.pendingHeaders.base.store == m.store && m.pendingData.base.store == m.store && m.daHeight != nil
+//@   requires [inv] ChainInv(m)
+//@   observe hq := call Height@1
+//@   observe gnb := call GetNextBatch
+//@   observe sh := call SetHeight
+//@   modifies m.lastState, m.lastBatchData, m.headerCache.seen,
+//@            durable m.store.height, durable m.store.stateAt, durable m.store.hasState, durable m.store.meta["l"], durable m.store.metaHas["l"],
+//@            durable m.store.has[m.store.height + 1], durable m.store.hdrAt[m.store.height + 1], durable m.store.hsigAt[m.store.height + 1],
+//@            durable m.store.signerAddrAt[m.store.height + 1], durable m.store.signerKeyAt[m.store.height + 1], durable m.store.txsAt[m.store.height + 1],
+//@            durable m.store.dataMetaAt[m.store.height + 1], durable m.store.sigAt[m.store.height + 1]
+//@   ensures [refuse] !m.store.faulty && old(Refuse(m)) ==> !hq && (err == nil || ctxDone(ctx))
+//@   ensures [no-refuse] !m.store.faulty && !old(Refuse(m)) && !ctxDone(ctx) ==> hq
+//@   ensures [height] m.store.height == old(m.store.height) || m.store.height == old(m.store.height) + 1
+//@   ensures [committed-valid] m.store.height == old(m.store.height) + 1 ==> m.store.has[m.store.height]
+//@                       && m.store.hdrAt[m.store.height].height == m.store.height
+//@                       && m.store.hdrAt[m.store.height].chainID == old(m.lastState.ChainID)
+//@                       && m.store.hdrAt[m.store.height].appHash == old(val(m.lastState.AppHash))
+//@                       && (m.store.height > 1 ==> old(m.lastState.LastBlockTime) <= TimeOfU64(m.store.hdrAt[m.store.height].time))
+//@                       && m.store.hdrAt[m.store.height].dataHash == CommitTxs(m.store.txsAt[m.store.height])
+//@   ensures [link] m.store.height == old(m.store.height) + 1 ==> Linked(m, m.store, m.store.height)
+//@   ensures [signed] m.store.height == old(m.store.height) + 1 ==> m.store.hdrAt[m.store.height].proposer == m.store.signerAddrAt[m.store.height]
+//@                       && Signed(pkraw(m.store.signerKeyAt[m.store.height]), Payload(m.store.hdrAt[m.store.height]), m.store.hsigAt[m.store.height])
+//@   ensures [state] m.store.height == old(m.store.height) + 1 ==> m.lastState.LastBlockHeight == m.store.height
+//@                       && val(m.lastState.AppHash) == Exec(old(val(m.lastState.AppHash)), m.store.txsAt[m.store.height])
+//@   ensures [inv-state] !m.store.faulty ==> InvState(m)
+//@   ensures [inv-tip] !m.store.faulty ==> InvTip(m)
+//@   ensures [inv-pending-height] !m.store.faulty && m.store.has[m.store.height + 1] ==> m.store.hdrAt[m.store.height + 1].height == m.store.height + 1 && m.store.hdrAt[m.store.height + 1].chainID == m.lastState.ChainID
+//@   ensures [inv-pending-time] !m.store.faulty && m.store.has[m.store.height + 1] && m.store.height + 1 > 1 ==> m.lastState.LastBlockTime <= TimeOfU64(m.store.hdrAt[m.store.height + 1].time)
+//@   ensures [inv-pending-apphash] !m.store.faulty && m.store.has[m.store.height + 1] ==> m.store.hdrAt[m.store.height + 1].appHash == val(m.lastState.AppHash)
+//@   ensures [inv-pending-link] !m.store.faulty && m.store.has[m.store.height + 1] ==> Linked(m, m.store, m.store.height + 1)
+//@   ensures [inv-no-future] !m.store.faulty ==> InvNoFuture(m)
+//@   ensures [inv-genesis] !m.store.faulty ==> InvGenesis(m)
+//@   crash_inv [height-not-ahead] m.store.hasState && m.store.height <= m.store.stateAt.lastBlockHeight
+//@   crash_inv [state-has-block] m.store.stateAt.lastBlockHeight > old(m.store.height) ==> m.store.has[m.store.stateAt.lastBlockHeight]
+
+// ---- helpers without effect on modelled state (metrics, signals) -------------------------
+// Verified for their frame: they change nothing that any contract speaks about.
+
+//@ func NewMetricsTimer(operation, metrics) (t)
+//@   property C01 C02 C04 C05 C08 C09 C11
+//@   fresh t
+//@   ensures [new] t != nil && t.metrics == metrics
+//@ func (t *MetricsTimer) Stop()
+//@   property C01 C02 C04 C05 C08 C09 C11
+//@   ensures [noop] true
+//@ func (m *Manager) recordMetrics(data)
+//@   property C01 C04 C08 C11
+//@   requires [metrics] m.metrics != nil && data != nil && data.Metadata != nil
+//@   ensures [noop] true
+//@ func (m *Manager) recordBlockProductionMetrics(txCount, isLazy, duration)
+//@   property C01 C04 C08 C11
+//@   requires [metrics] m.metrics != nil
+//@   ensures [noop] true
+//@ func (m *Manager) recordDAMetrics(operation, mode)
+//@   property C06 C09
+//@   requires [metrics] m.metrics != nil
+//@   ensures [noop] true
+//@ func (m *Manager) recordSyncMetrics(operation)
+//@   property C02 C05 C09
+//@   requires [metrics] m.metrics != nil
+//@   ensures [noop] true
+//@ func (m *Manager) recordError(errorType, recoverable)
+//@   property C02 C09
+//@   requires [metrics] m.metrics != nil
+//@   ensures [noop] true
+//@ func (m *Manager) sendNonBlockingSignalWithMetrics(ch, channelName) (sent)
+//@   property C02 C06 C07 C09
+//@   requires [metrics] m.metrics != nil
+//@   ensures [noop] true
+
+// ---- C02 / C03 / C05: applying received blocks --------------------------------------------
+
+//@ pred SyncInv(m) := InvState(m) && m.store.height < 18446744073709551615
+
+//@ func (m *Manager) trySyncNextBlock(ctx, daHeight) (err)
+//@   property C02:kind:inv-establish,kind:inv-preserve,kind:pre,kind:frame,monotone,progress,inv
+//@   property C03:no-halt,validated
+//@   property C05:kind:crash,kind:frame,inv,state-lbh,state-persisted,monotone
+//@   requires [wiring] m.metrics != nil && m.headerCache != nil && m.dataCache != nil && m.store != nil
+//@   requires [inv] SyncInv(m)
+//@   observe val := call Validate
+//@   observe sbd := call SaveBlockData
+//@   observe shh := call SetHeight
+//@   modifies m.lastState, m.headerCache.itemAt, m.headerCache.seen, m.dataCache.itemAt, m.dataCache.seen,
+//@            durable m.store.height, durable m.store.stateAt, durable m.store.hasState,
+//@            durable m.store.has, durable m.store.hdrAt, durable m.store.hsigAt, durable m.store.signerAddrAt, durable m.store.signerKeyAt,
+//@            durable m.store.txsAt, durable m.store.dataMetaAt, durable m.store.sigAt,
+//@            heap "types.SignedHeader.signatureProvider"
+//@   loop 1 invariant [state-lbh] m.lastState.LastBlockHeight == m.store.height && m.store.height < 18446744073709551615
+//@   loop 1 invariant [state-persisted] m.store.hasState && m.store.stateAt == StateOf(m.lastState)
+//@   loop 1 invariant [monotone] m.store.height >= old(m.store.height)
+//@   loop 1 invariant [validated] sbd ==> val && val.res0 == nil && val.arg2 == sbd.arg2 && val.arg3 == sbd.arg3
+//@   loop 1 invariant [height-is-header] shh ==> sbd && shh.arg2 == sbd.arg2.BaseHeader.Height && m.store.height == shh.arg2
+//@   ensures [monotone] m.store.height >= old(m.store.height)
+//@   ensures [progress] err == nil && !ctxDone(ctx) ==> m.headerCache.itemAt[m.store.height + 1] == 0 || m.dataCache.itemAt[m.store.height + 1] == 0
+//@   ensures [inv] !m.store.faulty ==> SyncInv(m)
+//@   observe ab := call applyBlock
+//@   ensures [no-halt] err != nil ==> ctxDone(ctx) || m.store.faulty || (ab && ab.res1 != nil)
+//@   crash_inv [height-not-ahead] m.store.hasState && m.store.height <= m.store.stateAt.lastBlockHeight
+//@   crash_inv [state-at-most-one-ahead] m.store.stateAt.lastBlockHeight <= currentHeight + 1 && m.store.height >= currentHeight
+//@   crash_inv [state-has-block] m.store.stateAt.lastBlockHeight > m.store.height ==> m.store.has[m.store.stateAt.lastBlockHeight]
+
+// ---- C03: admission ------------------------------------------------------------------------
+
+//@ func (m *Manager) isUsingExpectedSingleSequencer(header) (r)
+//@   property C03
+//@   requires [non-nil] header != nil
+//@   requires [proposer-set] len(m.genesis.ProposerAddress) > 0
+//@   ensures [admit-header] r ==> GenuineHeader(header, val(m.genesis.ProposerAddress))
+
+//@ func (m *Manager) isValidSignedData(signedData) (r)
+//@   property C03
+//@   requires [proposer-set] len(m.genesis.ProposerAddress) > 0
+//@   ensures [admit-data] r ==> signedData != nil && Signed(pkraw(signedData.Signer.PubKey.val), MarshalDataOf(TxsId(signedData.Data.Txs), DMetaOf(signedData.Data)), val(signedData.Signature))
+//@                       && AddrOf(pkraw(signedData.Signer.PubKey.val)) == val(m.genesis.ProposerAddress)
